@@ -44,6 +44,15 @@ CHECKS = {
          "checks the shift-equivalence theorem (-c X versus X as extra input) and emits expected results replayed into Data(clim=...).",
     technique="TLA+ spec (Dataset.tla Adj) model-checked with TLC; generated datasets replayed into verif.data.Data with clim",
     ref="6/C14"),
+ "C18": dict(
+    text="DataImpl.tla models Data.get_scores as the code has it (heap of mutable arrays, per-input field cache handed out without "
+         "copying, request cache, observation sharing by aliasing, in-place propagation and -obsrange); TLC checks that it refines "
+         "Dataset.tla (HistoryIndependent, EarlierUnaltered, CacheCoherent, CacheGrows) over every request sequence up to length 3 of a "
+         "36-request menu. Spec->code: maximal behaviours are replayed on one real Data object (results vs the history-free "
+         "expectation, all earlier arrays vs their snapshots, Input arrays unchanged). Code->spec: hook traces of those executions are "
+         "validated by TLC against the model (Trace_DataImpl), internal disagreement being MODEL-DRIFT only.",
+    technique="TLA+ refinement DataImpl => Dataset checked by TLC over all request histories; behaviours replayed into verif.data.Data; hook traces validated by TLC",
+    ref="6/C18"),
 }
 REASON_WIP = "check not built yet (work in progress; the TLA+ technique applies, see DESIGN.md section 6)"
 NOT_APPLICABLE = {}
